@@ -11,7 +11,7 @@ Model A of C08: store keys and the store life cycle.
   askar-storage/src/backend/sqlite/mod.rs  rekey, create_profile, get/set_default_profile, list_profiles
 
 Third-party primitives are parameters (`Crypto`): Argon2i (`kdf`), base58 + length check
-(`rawKey`), and the ChaCha20-Poly1305 wrap of the CBOR profile key (`seal` / `load`, nonce random).
+(`rawKey`), and the ChaCha20-Poly1305 wrap of the CBOR profile key (`wrapPk` / `loadPk`, nonce random).
 What they are assumed to satisfy is `Crypto.Laws` (decryptability, and the idealisation "a blob
 sealed under one store key loads under no other").  Randomness (salt, nonce, fresh keys, the
 uuid profile name) is an explicit argument `Rnd`.
@@ -22,7 +22,7 @@ file without the `config` table: what a failed provisioning leaves behind), or a
 the items (never touched by the functions modelled here; type parameter).
 
 Slices and panics: `StoreKey::unwrap_data` slices `ciphertext[..12]` unchecked (defect D2, property
-C03); it is inside the abstract `load` here, which is only ever applied to blobs produced by `seal`
+C03); it is inside the abstract `loadPk` here, which is only ever applied to blobs produced by `wrapPk`
 in the theorems.  Nothing else in the modelled code indexes.
 -/
 import AskarModel.Model.Uri
@@ -174,16 +174,16 @@ structure Crypto where
   /-- `parse_raw_store_key`: base58-decode onto 32 bytes and check the length (`none` = `Input` error) -/
   rawKey : Str → Option Key
   /-- `encode_profile_key`: CBOR of the profile key, wrapped under the store key (`None` = unprotected: stored as is) with a random nonce -/
-  seal : Option Key → Bytes → PK → Blob
+  wrapPk : Option Key → Bytes → PK → Blob
   /-- `KeyCache::load_key`: unwrap (`Encryption` on failure) then `ProfileKey::from_slice` (`Unsupported`) -/
-  load : Option Key → Blob → Except Err PK
+  loadPk : Option Key → Blob → Except Err PK
 
 structure Crypto.Laws (C : Crypto) : Prop where
   /-- decryptability -/
-  load_seal : ∀ sk n pk, C.load sk (C.seal sk n pk) = .ok pk
+  load_wrap : ∀ sk n pk, C.loadPk sk (C.wrapPk sk n pk) = .ok pk
   /-- idealisation of AEAD authenticity (and of "ciphertext is not a CBOR profile key"):
       a sealed blob loads under no other store key -/
-  ideal : ∀ sk sk' n pk pk', C.load sk' (C.seal sk n pk) = .ok pk' → sk' = sk
+  ideal : ∀ sk sk' n pk pk', C.loadPk sk' (C.wrapPk sk n pk) = .ok pk' → sk' = sk
 
 /-- the random choices one call may make -/
 structure Rnd (C : Crypto) where
@@ -229,7 +229,7 @@ def initKeys (C : Crypto) (m : Method) (pass : PassKey) (rnd : Rnd C) :
   if m = .raw ∧ pass.str.isEmpty then .error .input      -- "Cannot create a store with a blank raw key"
   else
     match m.resolve C pass rnd with
-    | .ok (sk, ref) => .ok (sk, ref.toUri, C.seal sk (rnd.nonce 0) rnd.pk, rnd.pk)
+    | .ok (sk, ref) => .ok (sk, ref.toUri, C.wrapPk sk (rnd.nonce 0) rnd.pk, rnd.pk)
     | .error e => .error e
 
 /-! ### persistent state and handles -/
@@ -270,7 +270,7 @@ def openDb {I : Type} (C : Crypto) (st : Store C I) (method : Option Method) (pa
         match lookup profile st.profiles with
         | none => .error .backend                       -- `fetch_one`: RowNotFound
         | some blob =>
-          match C.load sk blob with
+          match C.loadPk sk blob with
           | .error e => .error e
           | .ok pk => .ok { storeKey := sk, profile := profile, pk := pk }
 
@@ -302,12 +302,12 @@ def provision {I : Type} (C : Crypto) (noItems : I) (fs : Fs C I) (m : Method) (
 def rewrap (C : Crypto) (sk sk' : Option C.Key) (nonce : Nat → Bytes) : Nat → List (Str × C.Blob) → Except Err (List (Str × C.Blob))
   | _, [] => .ok []
   | i, (name, blob) :: rest =>
-    match C.load sk blob with
+    match C.loadPk sk blob with
     | .error e => .error e
     | .ok pk =>
       match rewrap C sk sk' nonce (i + 1) rest with
       | .error e => .error e
-      | .ok rest' => .ok ((name, C.seal sk' (nonce i) pk) :: rest')
+      | .ok rest' => .ok ((name, C.wrapPk sk' (nonce i) pk) :: rest')
 
 /-- `SqliteBackend::rekey` (one transaction: all profile keys and the config row, or nothing) -/
 def rekey {I : Type} (C : Crypto) (st : Store C I) (h : Handle C) (m : Method) (pass : PassKey) (rnd : Rnd C) :
@@ -330,7 +330,7 @@ def removeStore {I : Type} (fs : Fs C I) : Fs C I × Bool :=
 def createProfile {I : Type} (C : Crypto) (st : Store C I) (h : Handle C) (name : Str) (rnd : Rnd C) : Store C I × Except Err Str :=
   match lookup name st.profiles with
   | some _ => (st, .error .duplicate)
-  | none => ({ st with profiles := st.profiles ++ [(name, C.seal h.storeKey (rnd.nonce 0) rnd.pk)] }, .ok name)
+  | none => ({ st with profiles := st.profiles ++ [(name, C.wrapPk h.storeKey (rnd.nonce 0) rnd.pk)] }, .ok name)
 
 /-- `set_default_profile` (no existence check in the code) -/
 def setDefaultProfile {I : Type} (st : Store C I) (name : Str) : Store C I := { st with defaultProfile := name }
@@ -340,7 +340,7 @@ def setDefaultProfile {I : Type} (st : Store C I) (name : Str) : Store C I := { 
 def loadAll (C : Crypto) (sk : Option C.Key) : List (Str × C.Blob) → Except Err (List (Str × C.PK))
   | [] => .ok []
   | (name, blob) :: rest =>
-    match C.load sk blob with
+    match C.loadPk sk blob with
     | .error e => .error e
     | .ok pk =>
       match loadAll C sk rest with
@@ -350,7 +350,7 @@ def loadAll (C : Crypto) (sk : Option C.Key) : List (Str × C.Blob) → Except E
 /-- every wrapped profile key of the store is sealed under `sk` (what provision / create_profile /
     rekey establish) -/
 def SealedUnder {I : Type} (C : Crypto) (sk : Option C.Key) (st : Store C I) : Prop :=
-  ∀ e ∈ st.profiles, ∃ n pk, e.2 = C.seal sk n pk
+  ∀ e ∈ st.profiles, ∃ n pk, e.2 = C.wrapPk sk n pk
 
 /-! ### base58 (bs58 0.5, Bitcoin alphabet) for the executable instance -/
 
